@@ -7,7 +7,6 @@ sys.path.insert(0, HERE)
 import run
 
 NA = {
- "C01": "quantifies over programs and compares the whole recursive evaluator with an operational semantics; no per-function contract carries it, Verus cannot ingest the evaluator (Cc<dyn>, closures, thread-locals, proc-macro builtins) and Kani ICEs on anything that can build an Error (DESIGN.md §2)",
  "C19": "semantic preservation by the formatter relates two parses of two texts produced through dprint-core's print-item IR and rowan generated node types; no function-level pre/postcondition expresses 'same AST'",
  "C20": "idempotence/termination of layout resolution (dprint_core solver, convergence loop) and crash-freedom on arbitrary token sequences through generated parser code: whole-pipeline, liveness-flavoured, outside both tools' reach",
 }
